@@ -38,6 +38,10 @@ def judge_tlc(ctx, case, res, mism, wf):
         return False
     if isinstance(res, core.MachineryErrorResult):
         raise core.MachineryError(res.msg)
+    if res["invalid"] and res["invalid"].startswith("onnxruntime cannot run"):
+        # DESIGN 2.3: a case the reference runtime refuses on the ORIGINAL model is discarded and counted (run() bounds the count)
+        ctx.add("original_not_runnable_on_onnxruntime")
+        return False
     if res["invalid"]:
         raise core.MachineryError(f"a model derived by Optimizer.tla is not a valid/executable ONNX model: {res['invalid']}\n{json.dumps(case['model'])[:800]}")
     if res["spec_eval"]:
@@ -146,10 +150,25 @@ def run(ctx: core.Ctx):
                         items += [it for it in v["abs"] if it["id"].endswith("/graph")]
                 if r.get("abs0"):
                     items += [it for it in r["abs0"] if it["id"].endswith("/graph")]
-    # TLC wraps long printed tuples: the batch uses short ids
-    short = {it["id"]: f"g{n}" for n, it in enumerate(items)}
-    wf_short = core.graphcheck(ctx, [dict(it, id=short[it["id"]]) for it in items], "GraphCheck (WF of optimized models)")
-    wf = {long: wf_short[sh] for long, sh in short.items()}
+    # identical abstract graphs are judged once; TLC wraps long printed tuples, so the batch uses short ids
+    uniq = {}
+    key_of = {}
+    for it in items:
+        k = json.dumps([it["graph"], it["imports"]], sort_keys=True)
+        key_of[it["id"]] = k
+        uniq.setdefault(k, it)
+    keys = sorted(uniq)
+    cap = 6000 if ctx.quick else 40000
+    if len(keys) > cap:
+        import random
+
+        random.Random(ctx.seed).shuffle(keys)
+        ctx.set("graphs_not_checked_by_Graph_tla_over_cap", len(keys) - cap)
+        keys = keys[:cap]
+    short = {k: f"g{n}" for n, k in enumerate(keys)}
+    wf_short = core.graphcheck(ctx, [dict(uniq[k], id=short[k]) for k in keys], "GraphCheck (WF of optimized models)")
+    wf = {i: wf_short[short[k]] for i, k in key_of.items() if k in short}
+    ctx.set("distinct_graphs_checked_by_Graph_tla", len(keys))
     ctx.set("graphs_checked_by_Graph_tla", len(items))
     mism = []
     nontriv = 0
@@ -161,6 +180,8 @@ def run(ctx: core.Ctx):
         mism += [(case, t) for t in m1]
         if isinstance(res, dict) and len(ctx.coverage["samples"]) < 4 and any(i["kind"] == "ovr" for i in case["model"]["ins"]):
             ctx.sample({"model": _orig_text(case)[:600], "spec_steps": case["log"], "spec_deviations": case["used"], "variants": [v["name"] for v in res["variants"]]})
+    if ctx.coverage.get("original_not_runnable_on_onnxruntime", 0) > max(3, len(pairs) // 100):
+        raise core.MachineryError(f"onnxruntime refuses {ctx.coverage['original_not_runnable_on_onnxruntime']} of {len(pairs)} derived models: the model derivation is off")
     for case, t in mism[:8]:
         print(f"SPEC-MISMATCH C04: {t}\n{_orig_text(case)[:900]}", flush=True)
     ctx.set("model_impl_mismatches", len(mism))
